@@ -18,8 +18,8 @@ Record Specs (f : nat) : Prop := {
   sp_invoke : forall k r s, Inv s -> Own s (cobjs k) -> nohost k -> safe (invoke cf f k r) s (post s (cobjs k));
   sp_run_script : forall sc s, Inv s -> (forall c, In c sc -> nohost_call c) -> safe (run_script cf f sc) s (post s []);
   sp_api : forall c s, Inv s -> nohost_call c -> safe (api cf f c) s (post s []);
-  sp_query_nolock : forall k s, Inv s -> Own s (cobjs k) -> nohost k -> safe (query_nolock cf f k) s (postA s (cobjs k));
-  sp_send_nolock : forall k pr s, Inv s -> Own s (cobjs k) -> nohost k -> safe (send_nolock cf f k pr) s (postA s (cobjs k));
+  sp_query_nolock : forall k s, Inv s -> Own s (cobjs k) -> nohost k -> safe (query_nolock cf f k None) s (postA s (cobjs k));
+  sp_send_nolock : forall k pr s, Inv s -> Own s (cobjs k) -> nohost k -> safe (send_nolock cf f k pr None) s (postA s (cobjs k));
   sp_send_query : forall qo s, Inv s -> In qo (linked s) -> safe (send_query cf f qo) s (postA s []);
   sp_send_query_write : forall qo op s, Inv s -> In qo (linked s) -> safe (send_query_write cf f qo op) s (postA s []);
   sp_requeue_query : forall qo st inc df r s, InvX (Some qo) s -> In qo (linked s) ->
@@ -177,6 +177,8 @@ Proof. rewrite Hfix. reflexivity. Qed.
 Lemma fx_revalidate_true : fx_revalidate (cf_fix cf) = true.
 Proof. rewrite Hfix. reflexivity. Qed.
 Lemma fx_connread_true : fx_connread (cf_fix cf) = true.
+Proof. rewrite Hfix. reflexivity. Qed.
+Lemma fx_qidearly_true : fx_qidearly (cf_fix cf) = true.
 Proof. rewrite Hfix. reflexivity. Qed.
 
 Lemma opaque_not_query s L o q : Own s L -> cell_of s o = Some (CQuery q) -> ~ In o L.
@@ -467,7 +469,7 @@ Proof.
                   if zeqb wrc ARES_SUCCESS
                   then attach_frag qo co tcp;;
                        (let! s0 := get in
-                        (if probe_ahead (st_tape s0) then let! _ := send_nolock cf f KProbe true in ret tt else ret tt));;
+                        (if probe_ahead (st_tape s0) then let! _ := send_nolock cf f KProbe true None in ret tt else ret tt));;
                        ret ARES_SUCCESS
                   else if zeqb wrc ARES_ENOMEM
                   then end_query cf f qo wrc (res wrc);; ret wrc
@@ -488,7 +490,7 @@ Proof.
               safe (if zeqb wrc ARES_SUCCESS
                     then attach_frag qo co tcp;;
                          (let! s0 := get in
-                          (if probe_ahead (st_tape s0) then let! _ := send_nolock cf f KProbe true in ret tt else ret tt));;
+                          (if probe_ahead (st_tape s0) then let! _ := send_nolock cf f KProbe true None in ret tt else ret tt));;
                          ret ARES_SUCCESS
                     else if zeqb wrc ARES_ENOMEM
                     then end_query cf f qo wrc (res wrc);; ret wrc
@@ -605,7 +607,7 @@ Lemma link_all_run qo s : link_all qo s = Ok (tt, set_lists (link_lists qo (st_l
 Proof. reflexivity. Qed.
 
 Lemma send_nolock_unfold f k probe :
-  send_nolock cf (S f) k probe =
+  send_nolock cf (S f) k probe None =
   (let! qid := gen_qid 8 in
    let! cached :=
      (if probe then ret None
@@ -615,44 +617,46 @@ Lemma send_nolock_unfold f k probe :
                                else ret (Some {| r_status := rc; r_rec := if zeqb rc ARES_SUCCESS then Some (rcode, an, id) else None |})
            | _ => fail EDESYNC end) in
    match cached with
-   | Some r => invoke cf f k r ;; ret (r_status r, None)
+   | Some r => invoke cf f k r ;; ret (r_status r)
    | None =>
      let! e := pop in
      match e with
      | TD rc =>
        if negb (zeqb rc ARES_SUCCESS) then
          let st := if zeqb rc ARES_EBADRESP then ARES_EBADQUERY else rc in
-         invoke cf f k (res st) ;; ret (st, None)
+         invoke cf f k (res st) ;; ret st
        else
          (if cf_dns0x20 cf then (let! e := peek in match e with Some (TN _) => let! _ := pop in ret tt | _ => ret tt end) else ret tt) ;;
          let! qo := alloc (CQuery {| q_qid := qid; q_cb := k; q_conn := None; q_try := 0; q_noretry := probe;
                                      q_tcp := false; q_err := ARES_SUCCESS |}) in
          link_all qo ;;
          modify (fun s => set_byqid ((qid, qo) :: st_byqid s) s) ;;
+         (if fx_qidearly (cf_fix cf) then write_qid None qid else ret tt) ;;
          let! st := send_query cf f qo in
-         ret (st, if zeqb st ARES_SUCCESS then Some qid else None)
+         (if negb (fx_qidearly (cf_fix cf)) && zeqb st ARES_SUCCESS then write_qid None qid else ret tt) ;;
+         ret st
      | _ => fail EDESYNC end
    end).
 Proof. reflexivity. Qed.
 
 Lemma send_nolock_step f : Specs f -> forall k pr s, Inv s -> Own s (cobjs k) -> nohost k ->
-  safe (send_nolock cf (S f) k pr) s (postA s (cobjs k)).
+  safe (send_nolock cf (S f) k pr None) s (postA s (cobjs k)).
 Proof.
-  intros IH k pr s I O Hn. rewrite send_nolock_unfold.
+  intros IH k pr s I O Hn. rewrite send_nolock_unfold. rewrite fx_qidearly_true. simpl negb. cbn [andb write_qid].
   apply safe_bind. apply gen_qid_ok. intros qid s1 E1 Es1 Lk1.
   assert (I1 : Inv s1) by (apply (inv_core _ _ _ E1); auto).
   assert (O1 : Own s1 (cobjs k)) by (apply (own_core _ _ _ E1); auto).
   (* after the cache lookup *)
   assert (G : forall cached s2, core_eq s1 s2 -> st_scripts s2 = st_scripts s1 ->
             safe (match cached with
-                  | Some r => invoke cf f k r;; ret (r_status r, None)
+                  | Some r => invoke cf f k r;; ret (r_status r)
                   | None =>
                       let! e := pop in
                       match e with
                       | TD rc =>
                           if negb (zeqb rc ARES_SUCCESS)
                           then let st := if zeqb rc ARES_EBADRESP then ARES_EBADQUERY else rc in
-                               invoke cf f k (res st);; ret (st, None)
+                               invoke cf f k (res st);; ret st
                           else (if cf_dns0x20 cf
                                 then let! e0 := peek in
                                      match e0 with Some (TN _) => let! _ := pop in ret tt | _ => ret tt end
@@ -661,7 +665,8 @@ Proof.
                                                            q_noretry := pr; q_tcp := false; q_err := ARES_SUCCESS |}) in
                                 link_all qo;;
                                 modify (fun s0 => set_byqid ((qid, qo) :: st_byqid s0) s0);;
-                                (let! st := send_query cf f qo in ret (st, if zeqb st ARES_SUCCESS then Some qid else None)))
+                                ret tt;;
+                                (let! st := send_query cf f qo in ret tt;; ret st))
                       | _ => fail EDESYNC end
                   end) s2 (postA s (cobjs k))).
   { intros cached s2 E2 Es2.
@@ -685,7 +690,8 @@ Proof.
                                                     q_noretry := pr; q_tcp := false; q_err := ARES_SUCCESS |}) in
                         link_all qo;;
                         modify (fun s0 => set_byqid ((qid, qo) :: st_byqid s0) s0);;
-                        (let! st := send_query cf f qo in ret (st, if zeqb st ARES_SUCCESS then Some qid else None)))
+                        ret tt;;
+                        (let! st := send_query cf f qo in ret tt;; ret st))
                        s4 (postA s (cobjs k))).
         { intros s4 E4 Es4 Lk4.
           assert (I4 : Inv s4) by (apply (inv_core _ _ _ E4); auto).
@@ -695,8 +701,9 @@ Proof.
           apply safe_bind. apply safe_alloc.
           apply safe_bind. eapply safe_of_run; [apply link_all_run|].
           apply safe_bind. apply safe_modify.
+          apply safe_bind. apply safe_ret.
           apply safe_bind. eapply safe_mono; [apply (sp_send_query _ IH); [exact I5|exact Hl5]|].
-          intros z s6 [I6 F6]. apply safe_ret. split; auto.
+          intros z s6 [I6 F6]. apply safe_bind. apply safe_ret. apply safe_ret. split; auto.
           pose proof (frame_core_l _ _ _ _ E4 (frame_trans _ _ _ _ _ F5 F6)) as F. rewrite app_nil_r in F. exact F. }
         assert (Lk3 : lookup qid (st_byqid s3) = None).
         { destruct E2 as [_ [_ [_ [_ [Eq _]]]]]. simpl. rewrite Eq. exact Lk1. }
@@ -720,7 +727,7 @@ Proof.
 Qed.
 
 Lemma query_nolock_step f : Specs f -> forall k s, Inv s -> Own s (cobjs k) -> nohost k ->
-  safe (query_nolock cf (S f) k) s (postA s (cobjs k)).
+  safe (query_nolock cf (S f) k None) s (postA s (cobjs k)).
 Proof.
   intros IH k s I O Hn. simpl.
   apply safe_bind. apply safe_alloc.
@@ -778,7 +785,7 @@ Proof.
     + apply safe_ret. simpl. split; auto. split; [apply ce_frame_refl; exact E1|auto].
     + apply safe_bind.
       eapply safe_mono; [apply (sp_send_nolock _ IH (KSearch o k cur l' nd) false s1 I1 O1 Hn)|].
-      intros [st w] s2 [I2 F2]. apply safe_ret. rewrite fx_search_true. simpl.
+      intros st s2 [I2 F2]. apply safe_ret. rewrite fx_search_true. simpl.
       split; auto. split; [exact (frame_core_l _ _ _ _ E1 F2)|discriminate].
 Qed.
 
